@@ -228,5 +228,83 @@ theorem rs_cached_history_independent {β : Type} [OmplModel.RS.RSNum β] (rho :
   rw [← rs_direct_eq_interpolate rho ⟨0, 0, 0, 0, 0, 0⟩]
   exact car_walk_history_independent clsNum _ k k' _ frm to pre out t hrun (by simp [clsNum, h1, h0])
 
+/-! ### wrappers / compounds with car-like leaves (`Car.xinterp`, what `drv_spaceinterp` answers for them) -/
+
+/-- [AF] a Dubins leaf anywhere in a compound is interpolated by C14's `Dubins.interpolate` (the component's 4-argument virtual) -/
+theorem xinterp_dubins_leaf {β : Type} [OmplModel.RS.RSNum β] (rho : β) (sym : Bool) (lo hi : List β) (pa pb : Pose β) (t : β) :
+    xinterp (.dubins rho sym lo hi) (stOf pa) (stOf pb) t = (OmplModel.Dubins.interpolate rho sym pa pb t).map stOf := by
+  simp [xinterp, poseOf, stOf, dubins_direct_eq_interpolate]
+
+/-- [AF] … a Reeds-Shepp leaf by C14's `rsInterpolate` -/
+theorem xinterp_rs_leaf {β : Type} [OmplModel.RS.RSNum β] (rho : β) (lo hi : List β) (pa pb : Pose β) (t : β) :
+    xinterp (.rs rho lo hi) (stOf pa) (stOf pb) t = (OmplModel.RS.rsInterpolate rho pa pb t).map stOf := by
+  simp [xinterp, poseOf, stOf, rs_direct_eq_interpolate]
+
+/-- [AF] compounds delegate per component and ignore the weights; wrappers forward -/
+theorem xinterp_compound {β : Type} [OmplModel.RS.RSNum β] (w : β) (h tl : XSpace β) (ah at' bh bt rh rt : St β) (t : β)
+    (hh : xinterp h ah bh t = some rh) (ht : xinterp tl at' bt t = some rt) :
+    xinterp (.xcons w h tl) (.ccons ah at') (.ccons bh bt) t = some (.ccons rh rt) ∧
+    xinterp (.wrap (.xcons w h tl)) (.ccons ah at') (.ccons bh bt) t = some (.ccons rh rt) := by
+  simp [xinterp, hh, ht]
+
+/-- non-vacuity: a compound [Dubins, so2-leaf] is interpolated component by component -/
+example {β : Type} [OmplModel.RS.RSNum β] (rho : β) (pa pb p : Pose β) (x y t : β)
+    (h : OmplModel.Dubins.interpolate rho false pa pb t = some p) :
+    xinterp (.xcons 1 (.dubins rho false [] []) (.xcons 1 (.base .so2) .xnil))
+      (.ccons (stOf pa) (.ccons (.so2 x) .cnil)) (.ccons (stOf pb) (.ccons (.so2 y) .cnil)) t
+      = some (.ccons (stOf p) (.ccons (OmplModel.SpaceInterp.interpolateTree .so2 (.so2 x) (.so2 y) t) .cnil)) := by
+  simp [xinterp, poseOf, stOf, dubins_direct_eq_interpolate, h]
+
+/-- [AF] the `XSpace` recursion IS the engine's `Space` recursion on car-free spaces of any nesting: opening every compound and
+wrapper of `s` and interpolating leaf by leaf gives `OmplModel.SpaceInterp.interpolateTree s` (so every theorem about `OmplModel.SpaceInterp.interpolateTree` transfers to the
+car-free part of a mixed compound) -/
+theorem xinterp_embed {β : Type} [OmplModel.RS.RSNum β] (s : Space β) :
+    ∀ (a b : St β) (t : β), Space.wellTyped s a = true → Space.wellTyped s b = true →
+      xinterp (embed s) a b t = some (OmplModel.SpaceInterp.interpolateTree s a b t) := by
+  induction s with
+  | cnil =>
+    intro a b t ha hb
+    cases a <;> cases b <;> simp [Space.wellTyped] at ha hb
+    simp [embed, xinterp, OmplModel.SpaceInterp.interpolateTree, OmplModel.SpaceInterp.postMobius, OmplModel.SpaceInterp.interpolateW]
+  | ccons w h tl ihh iht =>
+    intro a b t ha hb
+    cases a <;> cases b <;> simp [Space.wellTyped] at ha hb
+    rename_i ah at' bh bt
+    simp [embed, xinterp, ihh ah bh t ha.1 hb.1, iht at' bt t ha.2 hb.2, OmplModel.SpaceInterp.interpolateTree, OmplModel.SpaceInterp.postMobius, OmplModel.SpaceInterp.interpolateW]
+  | wrap s ih =>
+    intro a b t ha hb
+    simp only [Space.wellTyped] at ha hb
+    simp [embed, xinterp, ih a b t ha hb, OmplModel.SpaceInterp.interpolateTree, OmplModel.SpaceInterp.postMobius, OmplModel.SpaceInterp.interpolateW]
+  | _ => intro a b t _ _; simp [embed, xinterp]
+
+/-! ### F370: the symmetric Dubins variant is not consistent under re-parameterisation -/
+
+/-- [AF] `…_partial`: whenever the backward path `dubins(to, from)` is not strictly shorter, the symmetric variant IS the plain Dubins
+interpolation — so on every leg where the forward direction is kept, re-parameterisation of the symmetric space is that of the
+plain space (which holds on every explored input: 0 misses in 23 000 continued interpolations, max gap 1e-7).  Full statement
+`interpolate(interpolate(a,b,s), b, u) = interpolate(a, b, s + (1-s) u)` for the symmetric space: FALSE as coded, see below. -/
+theorem dubins_sym_reparam_partial {β : Type} [DNum β] (rho : β) (a b : Pose β) (P Q : Path β)
+    (hP : dubinsStates rho a b = .path P) (hQ : dubinsStates rho b a = .path Q) (h : ¬ Q.len < P.len) (t : β) :
+    OmplModel.Dubins.interpolate rho true a b t = OmplModel.Dubins.interpolate rho false a b t := by
+  unfold OmplModel.Dubins.interpolate choosePath
+  simp [hP, hQ, h]
+
+/-- [AF] `…_fails`, the mechanism on C14's model: if the motion a → b keeps the forward word `P` (backward not shorter) but from an
+intermediate pose `m` the backward path `dubins(b, m) = Q'` is strictly shorter than `dubins(m, b) = P'`, then the continued
+interpolation is integrated along the REVERSED word `Q'` from `m` — not along `P`.  The hypotheses are met by the concrete pair
+rho = 1, a = (0,0,0), b = (-1,-1,0), m = the point at s = 0.25 = (0.938148, 1.346234, 1.924350): L(a,b) = L(b,a) = 7.697399,
+L(m,b) = 5.773049 = 0.75 L(a,b), L(b,m) = 3.338563; the continued point at u = 0.5 is (0.332107, -0.082107, 0.785398), the
+motion's point at 0.625 is (-1.332107, 1.082107, -2.356194).  That instance is evaluated by the compiled `Float` model in lock step
+with libompl (corpus/C07/08-f370-f372.txt, every run), NOT by the kernel: a kernel proof would have to evaluate the six word solvers
+(atan2 / acos of irrational arguments) over ℝ for this pair, which is not done. -/
+theorem dubins_sym_reparam_fails_of_switch {β : Type} [DNum β] (rho : β) (a b m : Pose β) (P Q P' Q' : Path β)
+    (hP : dubinsStates rho a b = .path P) (hQ : dubinsStates rho b a = .path Q) (h : ¬ Q.len < P.len)
+    (hP' : dubinsStates rho m b = .path P') (hQ' : dubinsStates rho b m = .path Q') (h' : Q'.len < P'.len)
+    (t u : β) (ht1 : ¬ (1 : β) ≤ t) (ht0 : ¬ t ≤ 0) (hu1 : ¬ (1 : β) ≤ u) (hu0 : ¬ u ≤ 0) :
+    OmplModel.Dubins.interpolate rho true a b t = some (interpPath rho a P t) ∧
+    OmplModel.Dubins.interpolate rho true m b u = some (interpPath rho m { Q' with rev := true } u) := by
+  unfold OmplModel.Dubins.interpolate choosePath
+  simp [hP, hQ, h, hP', hQ', h', ht1, ht0, hu1, hu0]
+
 end
 end OmplModel.Props.C07
